@@ -46,6 +46,8 @@ Clause(tr, e) ==
          \* the weight of a branch is computed here from the TRUE counts of the children
          LET W(b) == ProdSeq([j \in 1..Len(b) |-> CountIn(TrueTerms(tr.classes[b[j].child], b[j].n), b[j].params)])
          IN IF e.count # CountIn(TrueTerms(tr.classes[e.c], e.n), e.params) THEN "FIXTURE:DrawCountIsTheTruth"
+            ELSE IF \E i \in 1..Len(e.objs) : e.objs[i] \notin Objs(tr.classes[e.c], e.n) \/ ParamsOf(tr.classes[e.c], e.objs[i]) # e.params
+                 THEN "SampledObjectHasTheRequestedSizeAndParameters"
             ELSE DrawClause([count |-> e.count, sel |-> e.sel,
                              branches |-> [j \in 1..Len(e.branches) |-> [id |-> j - 1, weight |-> W(e.branches[j])]]])
     [] e.op = "global" -> GlobalClause(e, {w \in Objs(tr.classes[e.c], e.n) : ParamsOf(tr.classes[e.c], w) = e.params})
